@@ -1,5 +1,6 @@
 import PdeVerif.Json
 import PdeVerif.Model.Coords
+import PdeVerif.Model.CoordsBi
 /-
 Driver of the C19 model: every handler evaluates the definitions of `PdeVerif.Coords` (the ones
 the theorems of `Props/C19.lean` are about) at `Rat`.  Angles travel as exact rational pairs
@@ -173,8 +174,23 @@ def postocart (j : Json) : Except String Json := do
     | _ => throw "postocart: expected [r, z, cθ, sθ, cφ, sφ]"
   pure (Json.arr out.toArray)
 
+/-- {"sys","pts":[[a,c,s,ch,sh(,cp,sp)]..]} -> `pos_to_cart` of the bipolar / bispherical coordinate system at each
+point (`bipolarToCart`, `bisphToCart` of `Model/CoordsBi.lean`, the definitions the theorems of `Props/C19Jac.lean`
+differentiate) -/
+def bipostocart (j : Json) : Except String Json := do
+  let sys ← fldS j "sys"
+  let pts ← getMat (← fld j "pts")
+  let out ← pts.mapM fun p =>
+    match sys, p with
+    | "bipolar", [a, c, s, ch, sh] =>
+      if ch - c = 0 then throw "focus" else pure (jQs (bipolarToCart a c s ch sh))
+    | "bispherical", [a, c, s, ch, sh, cp, sp] =>
+      if ch - c = 0 then throw "focus" else pure (jQs (bisphToCart a c s ch sh cp sp))
+    | _, _ => throw s!"bipostocart: bad coordinate system / parameters {sys} {p.length}"
+  pure (Json.arr out.toArray)
+
 def handlers : List (String × Handler) := [
   ("c19.cs", cs), ("c19.order", order), ("c19.tocart", tocart), ("c19.tocart_checked", tocartChecked), ("c19.tocart2", tocart2),
   ("c19.products", products), ("c19.getitem", getitemH), ("c19.fromexpr", fromexpr),
-  ("c19.fromexpr2", fromexpr2), ("c19.postocart", postocart)]
+  ("c19.fromexpr2", fromexpr2), ("c19.postocart", postocart), ("c19.bipostocart", bipostocart)]
 end PdeVerif.Drv.C19
